@@ -26,6 +26,8 @@ PROGRAMS = {
     "(2,1,3)": "L = (x * y)[:, None, :] + z[..., None]",
     "view": "L = (x * y).T",
     "0d-view": "L = (x * y)[1, 2]",
+    "F-ordered result": "L = x.T * 2.0",
+    "strided view": "L = (x * y)[:, ::2]",
 }
 # seeds: (label, source building `g` from the shape of L, kind)
 GOOD_SEEDS = [
@@ -43,6 +45,10 @@ BAD_SEEDS = [
     ("extra leading axis (mutual broadcast)", "g = np.ones((2,) + L.shape)"),
     ("enlarging a size-1 axis", "g = np.ones(tuple(3 if s == 1 else s for s in L.shape)) if 1 in L.shape else np.ones((5,) + L.shape)"),
     ("wrong length vector", "g = np.ones(7)"),
+    # seeds with MORE axes than L, all extra ones of length 1 (assignment would drop them, broadcasting to L.shape does not allow it)
+    ("extra leading length-1 axis", "g = np.ones((1,) + L.shape)"),
+    ("two extra leading length-1 axes", "g = np.ones((1, 1) + L.shape)"),
+    ("strided seed with an extra leading length-1 axis", "g = np.ones((1,) + L.shape[:-1] + (2 * L.shape[-1],))[..., ::2] if L.ndim else np.ones((1, 2))[:, ::2]"),
 ]
 
 
